@@ -231,6 +231,20 @@ func c19(c *Check) {
 		c.Req(ok, "C19/prefix-free-families", "head "+a, c.F("x/xibc/core/host.PacketReceiptKey").Pos(), heads[a], fmt.Sprintf("family head %q is a prefix of family head %q: a prefix iterator over the former also ranges over the latter", a, clash))
 	}
 
+	c.Rule("C19/iterator-prefix-ends-at-a-boundary", "a prefix handed to a prefix iterator ends in literal text (a separator or a family literal), never inside a chain-name component: otherwise the scan for (A, bsc) also returns the keys of (A, bsc-testnet) and they are read back as the wrong triple", 6)
+	for _, rd := range c.P.StoreReads() {
+		if rd.Op != "PrefixIterator" && rd.Op != "ReversePrefixIterator" {
+			continue
+		}
+		n := normShape(rd.Full)
+		if n == "" || strings.HasSuffix(n, "⟨v⟩") && strings.HasPrefix(funcName(rd.Fn), "eth/types.GetIterator") || strings.HasSuffix(n, "⟨v⟩") && strings.HasPrefix(funcName(rd.Fn), "bsc/types.GetIterator") {
+			c.Ok("C19/iterator-prefix-ends-at-a-boundary", funcName(rd.Fn)+": "+n, rd.Pos, "prefix is a parameter bound to family literals at the call sites (C13/family-exported)")
+			continue
+		}
+		endsInHole := strings.HasSuffix(n, "⟨s⟩") || strings.HasSuffix(n, "⟨v⟩") || strings.HasSuffix(n, "⟨d⟩")
+		c.Req(!endsInHole, "C19/iterator-prefix-ends-at-a-boundary", funcName(rd.Fn)+": "+n, rd.Pos, "ends in literal text", "iterator prefix "+n+" ends inside a variable component: keys of any longer name with that prefix are scanned too")
+	}
+
 	c.Rule("C19/identifier-charset", "the identifier validator's character class excludes the key separator '/', and chain names entering through proposals pass that validator", 4)
 	hostPkg := c.P.Pkg("x/xibc/core/host")
 	init := hostPkg.Func("init")
